@@ -1,12 +1,11 @@
 -------------------------- MODULE MCConcertinaImpl --------------------------
 (* Model: ConcertinaImpl => Concertina over the configurations in          *)
-(* $C14_CONFIGS; every terminal state prints the predicted call sequence   *)
+(* $C14_INPUT; every terminal state prints the predicted call sequence     *)
 (* <<"B", ToJson([ci, log])>> for the harness (MODEL-DRIFT comparison).    *)
-EXTENDS ConcertinaImpl, ConcertinaLoad
+EXTENDS ConcertinaImpl
 
-Loaded == [k \in DOMAIN RawConfigs |-> Abs!Derive(NormCfg(RawConfigs[k]))]
-ASSUME \A k \in DOMAIN Loaded : Abs!WellFormedCfg(Loaded[k])
-ASSUME PrintT(<<"CONFIGS", Len(Loaded)>>)
+ASSUME \A k \in DOMAIN ConfigSeq : WellFormedCfg(ConfigSeq[k])
+ASSUME PrintT(<<"CONFIGS", Len(ConfigSeq)>>)
 
 Export == phase = "done" => PrintT(<<"B", ToJson([ci |-> ci, log |-> log])>>)
 =============================================================================
